@@ -294,7 +294,7 @@ class Parser:
             save = self.p
             j = match(self.t, self.p)
             nxt = self.t[j + 1][1] if j + 1 < len(self.t) else ""
-            if nxt in ("&&", "||", ")", ";", "") and not self._is_cast(self.p):
+            if nxt in ("&&", "||", ")", ";", ",", "?", "") and not self._is_cast(self.p):
                 self.eat("(")
                 c = self.c_or()
                 self.eat(")")
